@@ -529,6 +529,88 @@ def rule_r7(chk, p, t):
         r.violation(pt.qualname + ":loop", "iteration-dependent-step", "propagateTo has no single step loop", pt.loc())
 
 
+def rule_r8(chk, p, t):
+    """Process-wide state: class attributes and module globals of the code truth propagation executes."""
+    from rsa import memo
+
+    r = chk.rule(
+        "C10.R8",
+        "nothing configures the truth dynamics through class-level or module-level state",
+        1,
+        "truth and estimate dynamics are instances of the same classes and run in the same (worker) processes, so the only "
+        "state they may share is constant: no function or method anywhere in the package assigns, at run time, an attribute "
+        "of a class object (cls.X = ..., Class.X = ..., type(self).X = ..., setattr on a class) or a module global of the "
+        "modules truth propagation executes (dynamics.*, physics.*) unless the assigned value does not depend on the "
+        "function's parameters (lazily built constant registries). A class-level tolerance, switch or table set from the "
+        "estimation side changes the next truth propagation served by that process",
+        "state shared through the file system or the database",
+    )
+    PREFIX = ("resonaate.dynamics", "resonaate.physics")
+    n_fn = n_w = 0
+    for fi in p.all_functions(include_nested=True):
+        n_fn += 1
+        params, selfname = memo._params(fi)
+        for n in walk_no_nested(fi.node):
+            tgts, val = [], None
+            if isinstance(n, ast.Assign):
+                tgts, val = n.targets, n.value
+            elif isinstance(n, (ast.AnnAssign, ast.AugAssign)) and n.value is not None:
+                tgts, val = [n.target], n.value
+            elif isinstance(n, ast.Expr) and isinstance(n.value, ast.Call) and call_name(n.value) == "setattr" and len(n.value.args) == 3:
+                a0 = n.value.args[0]
+                if unparse(a0) in ("cls", "type(self)", "self.__class__") or (isinstance(a0, ast.Name) and p.resolve_dotted(fi.module, a0.id) in p.classes):
+                    tgts, val = [ast.Attribute(value=a0, attr=unparse(n.value.args[1]), ctx=ast.Store())], n.value.args[2]
+            for tg in tgts:
+                base = tg
+                while isinstance(base, ast.Subscript):
+                    base = base.value
+                owner = None
+                if isinstance(base, ast.Attribute):
+                    b = base.value
+                    if isinstance(b, ast.Name) and b.id == "cls" and selfname == "cls" and fi.cls is not None:
+                        owner = fi.cls
+                    elif unparse(b) in ("type(self)", "self.__class__") and fi.cls is not None:
+                        owner = fi.cls
+                    elif isinstance(b, ast.Name):
+                        q = p.resolve_dotted(fi.module, b.id)
+                        owner = p.classes.get(q)
+                    if owner is None:
+                        continue
+                    # the write lands on the class it is called on: every class of the hierarchy below the owner
+                    hier = [owner] + list(p.subclasses(owner)) + list(p.mro(owner))
+                    if not any(c.module.name.startswith(PREFIX) for c in hier):
+                        continue
+                    where = f"{owner.name}.{base.attr}"
+                elif isinstance(base, ast.Name):
+                    loc = memo._location(fi, base, p, selfname)
+                    if loc is None or loc[0] != "global" or not fi.module.name.startswith(PREFIX):
+                        continue
+                    if isinstance(tg, ast.Name) and not any(isinstance(g, ast.Global) and tg.id in g.names for g in walk_no_nested(fi.node)):
+                        continue
+                    where = f"{fi.module.name}.{base.id}"
+                else:
+                    continue
+                n_w += 1
+                deps = memo.param_deps(fi, val) if val is not None else []
+                if isinstance(tg, ast.Subscript):
+                    deps = sorted(set(deps) | set(memo.param_deps(fi, tg.slice)))
+                cons = f"{fi.qualname}:{where}"
+                if deps and isinstance(tg, ast.Subscript):
+                    from rsa.terms import inline_locals
+
+                    key = inline_locals(fi, tg.slice)
+                    vdeps = memo.param_deps(fi, val) if val is not None else []
+                    if all(memo.injective_in(key, q) is True for q in vdeps):
+                        r.ok(cons, f"`{where}[{unparse(tg.slice)}]`: a table keyed by the very arguments its entries are computed from", fi.loc(n))
+                        continue
+                if deps:
+                    r.violation(cons, f"class-state:{where}", f"{fi.qualname} assigns the class-level / module-level `{where}` from its parameter(s) {deps}: every instance of that class in the process - the truth dynamics as well as the estimate's - sees the new value from then on, so a truth trajectory depends on what else ran in that process (which filter, whether estimation ran, which worker served the job)", fi.loc(n))
+                else:
+                    r.ok(cons, f"`{where}` is assigned a value independent of the caller's arguments (constant / lazily built table)", fi.loc(n))
+    if n_w == 0:
+        r.ok("package", f"{n_fn} functions scanned: no run-time assignment to class-level or module-level state of dynamics.* / physics.*")
+
+
 def run(chk, p, t):
     chk.explanation = (
         "Static non-interference analysis for C10: (R1) an enumerated, closed set of writers of truth state and of "
@@ -541,7 +623,7 @@ def run(chk, p, t):
         "splitting keep no state. NOT decided: bit-for-bit determinism of SciPy and of Ray serialisation."
     )
     chk.assumptions += ["ray.put / ray.get are a deep-copy boundary", "dynamicsFactory returns a fresh object per call (no caching; checked: it constructs TwoBody / SpecialPerturbations / Terrestrial)"]
-    steps = [("C10.R1", rule_r1), ("C10.R2", rule_r2), ("C10.R3", rule_r3), ("C10.R4", rule_r4_r5), ("C10.R6", rule_r6), ("C10.R7", rule_r7)]
+    steps = [("C10.R1", rule_r1), ("C10.R2", rule_r2), ("C10.R3", rule_r3), ("C10.R4", rule_r4_r5), ("C10.R6", rule_r6), ("C10.R7", rule_r7), ("C10.R8", rule_r8)]
     for rid, fn in steps:
         if chk.only_rule is not None and chk.only_rule != rid and not (chk.only_rule == "C10.R5" and rid == "C10.R4"):
             continue
